@@ -90,8 +90,10 @@ impl Crumbs {
     fn clear(&self, slot: usize) { self.mark(slot, "-", 0, 0) }
     pub fn read(path: &str) -> Vec<(String, u64, u64)> {
         let mut out = vec![];
-        if let Ok(s) = std::fs::read_to_string(path) {
-            for line in s.lines() {
+        if let Ok(bytes) = std::fs::read(path) {
+            // fixed-size slots; slots never written are NUL-filled holes
+            for slot in bytes.chunks(CRUMB_SLOT as usize) {
+                let line: String = String::from_utf8_lossy(slot).chars().filter(|c| *c != '\0').collect();
                 let mut it = line.split_whitespace();
                 if let (Some(p), Some(a), Some(b)) = (it.next(), it.next(), it.next()) {
                     if p != "-" { if let (Ok(a), Ok(b)) = (a.parse(), b.parse()) { out.push((p.to_string(), a, b)); } }
@@ -115,9 +117,39 @@ pub fn run_phase(phase: &dyn Phase, seed: u64, range: (u64, u64), threads: usize
     let stop_at = AtomicU64::new(u64::MAX);
     let merged: Mutex<(Stats, Vec<Found>, u64)> = Mutex::new((Stats::default(), vec![], 0));
     let samples = phase.sample_runs();
+    // heartbeat per worker: (runs executed, 1 while inside a run). A run that makes no progress for
+    // `hang_limit` seconds is a hang inside the system under test: the process aborts, leaving the
+    // breadcrumbs for the supervisor (in-process phases only; child-process phases have their own limits).
+    let beats: Vec<(AtomicU64, AtomicU64)> = (0..threads).map(|_| (AtomicU64::new(0), AtomicU64::new(0))).collect();
+    let finished = AtomicU64::new(0);
+    let hang_limit = std::env::var("VERIF_HANG_S").ok().and_then(|s| s.parse::<u64>().ok()).unwrap_or(20);
+    let watch = phase.chunk() > 1;
     std::thread::scope(|scope| {
+        if watch {
+            let (beats, finished) = (&beats, &finished);
+            let name = phase.name();
+            scope.spawn(move || {
+                let mut last: Vec<(u64, std::time::Instant)> = beats.iter().map(|b| (b.0.load(Ordering::Relaxed), std::time::Instant::now())).collect();
+                while finished.load(Ordering::SeqCst) < threads as u64 {
+                    std::thread::sleep(std::time::Duration::from_millis(200));
+                    for (w, b) in beats.iter().enumerate() {
+                        let n = b.0.load(Ordering::Relaxed);
+                        if n != last[w].0 || b.1.load(Ordering::Relaxed) == 0 { last[w] = (n, std::time::Instant::now()); }
+                        else if last[w].1.elapsed().as_secs() >= hang_limit {
+                            let run = b.1.load(Ordering::Relaxed).saturating_sub(1);
+                            println!("HANG: worker {} of phase {} has been inside run {} for {} s; aborting so that the supervisor can confirm it in isolation", w, name, run, hang_limit);
+                            // narrow this worker's breadcrumb to the exact run, clear the others
+                            for x in 0..threads { if x != w { crumbs.clear(x); } }
+                            crumbs.mark(w, name, run, run + 1);
+                            if let Ok(p) = std::env::var("VERIF_HANG_FLAG") { let _ = std::fs::write(p, format!("{} {}", name, run)); }
+                            std::process::abort();
+                        }
+                    }
+                }
+            });
+        }
         for w in 0..threads {
-            let (next, stop_at, merged, samples) = (&next, &stop_at, &merged, &samples);
+            let (next, stop_at, merged, samples, beats, finished) = (&next, &stop_at, &merged, &samples, &beats, &finished);
             std::thread::Builder::new().stack_size(WORKER_STACK).name(format!("sim-worker-{}", w)).spawn_scoped(scope, move || {
                 let mut st = Stats::default();
                 if log_runs { st.runlog = Some(vec![]); }
@@ -131,7 +163,10 @@ pub fn run_phase(phase: &dyn Phase, seed: u64, range: (u64, u64), threads: usize
                     for run in a..b {
                         if run >= stop_at.load(Ordering::Relaxed) { break; }
                         let g = phase.generate(seed, run);
+                        beats[w].1.store(run + 1, Ordering::Relaxed);
                         let ex = phase.execute(&g, run, &mut st);
+                        beats[w].1.store(0, Ordering::Relaxed);
+                        beats[w].0.fetch_add(1, Ordering::Relaxed);
                         let sc = g.sc;
                         st.evaluations += 1;
                         done += 1;
@@ -159,6 +194,8 @@ pub fn run_phase(phase: &dyn Phase, seed: u64, range: (u64, u64), threads: usize
                     }
                 }
                 m.2 += done;
+                drop(m);
+                finished.fetch_add(1, Ordering::SeqCst);
             }).expect("spawn worker");
         }
     });
